@@ -19,6 +19,7 @@ the business of the lexer / parser half (Props/C16.lean, C02 layer); here they a
  * `PlugPositionsOK reg plug` / `PlugPositionsAt K reg plug` — the layers plugged into `processAll`
    (type, identity and typedef resolution) keep that discipline when they are asked about
    statements of loaded modules.
+ * `allPositions`, `posOKb` — executable forms (proved equivalent in Lemmas/PositionsSem.lean).
  * `Ast.Within`, `Ast.Blames` — the same for the AST builder, whose statements carry no file name
    (one text is built at a time): which statement a positioned builder error is about.
 -/
@@ -56,12 +57,18 @@ of statement"). -/
 def PosAt (K : String → Stmt → Prop) (reg : Registry) (e : Err) : Prop :=
   Positioned e → ∃ s, StmtOf reg s ∧ At e s ∧ K e.cls s
 
+/-- The classes of the errors about a member of an enumeration or of a bit set (duplicate name,
+duplicate / too small / too large value, no value left). -/
+def enumClasses : List String :=
+  ["enum-dup-name", "enum-dup-value", "enum-too-small", "enum-too-large", "enum-max-reached"]
+
 /-- Which statement the error classes of the entry layer and of the type layer name:
  * an unknown grouping: the `uses` statement;
  * a bad `ordered-by`, `max-elements`, `min-elements` value: that substatement;
  * a bad `config` / `mandatory` value: the statement that holds it;
  * an unknown type name or prefix: the `type` statement;
- * a bad `range` / `length` restriction: the `range` / `length` statement.
+ * a bad `range` / `length` restriction: the `range` / `length` statement;
+ * a bad enum or bit member: that `enum` / `bit` statement.
 Other classes (duplicate keys and nodes, augment and deviation failures, cycles, …) are
 unconstrained here: they name the node, the grouping, the augment or the deviating module. -/
 def Names (cls : String) (s : Stmt) : Prop :=
@@ -74,7 +81,8 @@ def Names (cls : String) (s : Stmt) : Prop :=
   (cls = "unknown-prefix" → s.kw = "type") ∧
   (cls = "bad-range" → s.kw = "range") ∧
   (cls = "bad-length" → s.kw = "length") ∧
-  (cls = "negative-length" → s.kw = "length")
+  (cls = "negative-length" → s.kw = "length") ∧
+  (cls ∈ enumClasses → s.kw = "enum" ∨ s.kw = "bit")
 
 /-- The plugged layers keep the discipline `K`: asked about a `type` statement `t` (with ancestors
 `scope`) of a loaded module `root`, the type resolver only reports positions of statements of
